@@ -1034,3 +1034,30 @@ package http2
 //@ loop 0: invariant none: forall(i, 0, rangeindex + 1, (*strms)[i].id != id)
 //@ ensures found: r0 != nil ==> r0.id == id && exists(i, 0, len(*strms), (*strms)[i] == r0)
 //@ ensures absent: r0 == nil ==> forall(i, 0, len(*strms), (*strms)[i].id != id)
+
+//@ func (*Settings).CopyTo
+//@ props C18
+//@ requires recv: st != nil && st2 != nil
+//@ modifies *st2, capacity(st2.rawSettings)
+//@ opt noframe=true
+//@ ensures copy: st2.tableSize == st.tableSize && st2.enablePush == st.enablePush && st2.maxStreams == st.maxStreams &&
+//@ |   st2.windowSize == st.windowSize && st2.frameSize == st.frameSize && st2.headerSize == st.headerSize && st2.hasWindowSize == st.hasWindowSize && st2.ack == st.ack
+
+//@ func (*serverConn).handleSettings
+//@ props C18
+//@ requires args: scOK(sc) && st != nil
+//@ requires enc: hpackOK(sc.enc)
+//@ opt noframe=true
+//@ modifies sc.clientS, capacity(sc.clientS.rawSettings), sc.enc.maxTableSizeSettings, sc.enc.maxTableSize, sc.enc.pendingSizeUpdate, sc.enc.dynamic, contents(sc.enc.dynamic), family(HeaderField),
+//@ |   family(Data), family(Headers), family(Priority), family(RstStream), family(Settings), family(PushPromise), family(Ping), family(GoAway), family(WindowUpdate), family(Continuation)
+//@ # the peer's values are recorded, the encoder's table is cut down to the peer's HEADER_TABLE_SIZE, and one ACK is queued
+//@ ensures recorded: sc.clientS.frameSize == old(st.frameSize) && sc.clientS.maxStreams == old(st.maxStreams) && sc.clientS.windowSize == old(st.windowSize) && sc.clientS.tableSize == old(st.tableSize)
+//@ ensures table: sc.enc.maxTableSize == old(st.tableSize) && sc.enc.maxTableSizeSettings == old(st.tableSize)
+//@ ensures ack: called((*serverConn).write) == 1
+
+//@ func NewStream
+//@ props C13 C08
+//@ opt noframe=true
+//@ ensures fresh: r0 != nil && fresh(r0) && r0.id == id && r0.window == win && r0.state == 0 && !r0.headersFinished && r0.ctx == nil &&
+//@ |   !r0.responded && !r0.handlerRunning && !r0.abandoned && r0.recvBody == 0 && r0.headerListSize == 0 && !r0.hasContentLength &&
+//@ |   len(r0.previousHeaderBytes) == 0 && len(r0.pendingData) == 0 && r0.bodyStream == nil && !r0.regularSeen
